@@ -146,34 +146,60 @@ def _render_spec(spec: dict[str, Any]) -> Any:
 
 
 class _VirtualClock:
-    """A logical clock put where the date filter looks for the time (the module attribute `datetime`): every reading is one hour later
-    than the one before, and every reading is recorded."""
+    """A logical clock put where the date filter (and the date parser it uses) look for the time - the module attribute `datetime`: every
+    reading is `step` later than the one before, and every reading is recorded."""
 
-    def __init__(self) -> None:
+    def __init__(self, step_hours: int = 1) -> None:
         self.readings: list[datetime.datetime] = []
         clock = self
 
-        class VDateTime(datetime.datetime):
+        def tick() -> datetime.datetime:
+            t = datetime.datetime(2031, 5, 6, 7, 8, 9) + datetime.timedelta(hours=step_hours * len(clock.readings))
+            clock.readings.append(t)
+            return t
+
+        class _LikeReal(type):
+            """isinstance(x, <virtual class>) answers for the real class: the code under the clock tests values made by the real one"""
+
+            def __instancecheck__(cls, inst):  # noqa: N805
+                return isinstance(inst, cls.__mro__[1])
+
+        class VDateTime(datetime.datetime, metaclass=_LikeReal):
             @classmethod
             def now(cls, tz=None):  # noqa: ANN001
-                t = datetime.datetime(2031, 5, 6, 7, 8, 9) + datetime.timedelta(hours=len(clock.readings))
-                clock.readings.append(t)
-                return t
+                return tick()
+
+            @classmethod
+            def today(cls):
+                return tick()
+
+        class VDate(datetime.date, metaclass=_LikeReal):
+            @classmethod
+            def today(cls):
+                return tick().date()
 
         import types
 
         self.module = types.SimpleNamespace(**{k: getattr(datetime, k) for k in dir(datetime) if not k.startswith("__")})
         self.module.datetime = VDateTime
+        self.module.date = VDate
 
 
 def _clock_job(job: dict[str, Any]) -> dict[str, Any]:
     """Render the steps one after the other under the virtual clock; report each output with the clock readings made during that render."""
     from liquid.builtin.filters import misc
 
-    clock = _VirtualClock()
+    clock = _VirtualClock(job.get("step_hours", 1))
     if not hasattr(misc, "datetime"):
         return {"result": ["no-clock-seam"], "memo_hits": {}}
     misc.datetime = clock.module
+    try:
+        import dateutil.parser._parser as _dp
+
+        if hasattr(_dp, "datetime"):
+            _dp.datetime = clock.module  # a time without a date is completed from today's date
+    except Exception:  # noqa: BLE001
+        pass
     out = []
     for sp in job["steps"]:
         n0 = len(clock.readings)
@@ -339,7 +365,7 @@ def judge(ctx: core.Ctx, case: dict[str, Any]) -> None:
         # (or something like it) was rendered before.  Logical clock, so no wall-clock reading decides anything.
         if not Z:
             raise core.Inconclusive("zygote not running")
-        Z["w"].write(json.dumps({"steps": case["steps"]}, default=repr) + "\n")
+        Z["w"].write(json.dumps({"steps": case["steps"], "step_hours": case.get("step_hours", 1)}, default=repr) + "\n")
         Z["w"].flush()
         line = Z["r"].readline()
         if not line:
@@ -354,6 +380,9 @@ def judge(ctx: core.Ctx, case: dict[str, Any]) -> None:
                 continue
             fmt = sp["clock_fmt"]
             ok_values = {datetime.datetime.fromisoformat(t).strftime(fmt) for t in r["readings"]}
+            if sp.get("time_of_day"):
+                # a time without a date: the date is today's, i.e. that of a clock reading made during this render
+                ok_values = {datetime.datetime.fromisoformat(t).strftime("%Y-%m-%d") + "|" + sp["time_of_day"] for t in r["readings"]}
             got = r["out"][1] if r["out"] and r["out"][0] == "ok" else None
             if got is None:
                 ctx.count("clock_render_failed")
@@ -683,7 +712,21 @@ def refused_template_histories():
                     yield {"kind": "history", "aim": "refused-templates-then-an-ordinary-one", "history": hist, "probe": spec(pr, {"v": "you"}, envc, pi % 2 == 1)}
 
 
+def relative_date_cases():
+    for text, tod in (("10:00", "10:00"), ("10:30 pm", "22:30"), ("7am", "07:00"), ("23:59:59", "23:59")):
+        for shape in ("[{{ 'W' | date: '%Y-%m-%d|%H:%M' }}]", "{% assign t = 'W' | date: '%Y-%m-%d|%H:%M' %}[{{ t }}]", "[{{ w | date: '%Y-%m-%d|%H:%M' }}]"):
+            for is_async in (False, True):
+                steps = []
+                for k in range(3):
+                    sp = spec(shape.replace("W", text), {"w": text}, None, is_async)
+                    sp.update(reads_clock=True, clock_fmt="%Y-%m-%d|%H:%M", time_of_day=tod)
+                    steps.append(sp)
+                    steps.append(spec("{{ 0 | date: '%Y' }}", {}, None, is_async))
+                yield {"kind": "clock", "steps": steps, "step_hours": 25}
+
+
 def clock_cases():
+    yield from relative_date_cases()
     fmts = ["%H", "%Y-%m-%d %H:%M", "%H:%M:%S", "<%H>", "%j %H"]
     for word in ("now", "today"):
         for fmt in fmts:
